@@ -66,12 +66,12 @@ def check(ctx):
     with ctx.section("fe-escapers"):
         try:
             structural(ctx, "escaper/all-bytes", "escaper/content-roundtrip + escaper/attribute-roundtrip (bounded)", _fe_escapers, ctx)
-        except InterpError as e:
+        except (InterpError, ModelRaised) as e:      # an exception of the interpreted code that no scenario expected is confined to this section
             raise AnalysisError(f"C28/fe-escapers: {e}")
     with ctx.section("flatten"):
         try:
             _flatten_roundtrip(ctx)
-        except InterpError as e:
+        except (InterpError, ModelRaised) as e:      # an exception of the interpreted code that no scenario expected is confined to this section
             raise AnalysisError(f"C28/flatten: _flattenElement uses a construct the evaluator cannot interpret: {e}")
     with ctx.section("buffer"):
         _buffer(ctx)
@@ -84,17 +84,17 @@ def check(ctx):
     with ctx.section("slot-scope"):
         try:
             _slot_scope(ctx)
-        except InterpError as e:
+        except (InterpError, ModelRaised) as e:      # an exception of the interpreted code that no scenario expected is confined to this section
             raise AnalysisError(f"C28/slot-scope: {e}")
     with ctx.section("fe-slot-lookup"):
         try:
             _fe_slot_lookup(ctx)
-        except InterpError as e:
+        except (InterpError, ModelRaised) as e:      # an exception of the interpreted code that no scenario expected is confined to this section
             raise AnalysisError(f"C28/fe-slot-lookup: _getSlotValue uses a construct the evaluator cannot interpret: {e}")
     with ctx.section("flatten-control-characters"):
         try:
             _flatten_control(ctx)
-        except InterpError as e:
+        except (InterpError, ModelRaised) as e:      # an exception of the interpreted code that no scenario expected is confined to this section
             raise AnalysisError(f"C28/flatten-control-characters: the writer chain uses a construct the evaluator cannot interpret: {e}")
     with ctx.section("escapers-structure"):
         _escaper_structure(ctx)
@@ -906,7 +906,7 @@ def _escaper_content(ctx):
                     i = out.find(b"&", i + 1)
                 if not okay:
                     bad.append((data, out))
-    except InterpError as e:
+    except (InterpError, ModelRaised) as e:      # an exception of the interpreted code that no scenario expected is confined to this section
         raise AnalysisError(f"C28: escapeForContent not interpretable: {e}")
     ctx.check(not bad, "escaper/content-roundtrip", q, f"escapeForContent({bad[0][0]!r}) = {bad[0][1]!r}: raw markup survives or the text does not un-escape to itself ({len(bad)} of {n})" if bad else "",
               detail=f"{n} strings")
@@ -928,7 +928,7 @@ def _escaper_attribute(ctx):
             okay = kind == "return" and isinstance(out, bytes) and not (set(out) & set(b'<>"')) and _unescape(out) == s.encode()
             if not okay:
                 bad.append((s, out))
-    except InterpError as e:
+    except (InterpError, ModelRaised) as e:      # an exception of the interpreted code that no scenario expected is confined to this section
         raise AnalysisError(f"C28: attribute escaper uses a construct the evaluator cannot interpret: {e}")
     ctx.check(not bad, "escaper/attribute-roundtrip", q, f"attribute text {bad[0][0]!r} is written as {bad[0][1]!r}: a quote/angle bracket survives or the value does not un-escape to itself ({len(bad)} of {n})" if bad else "",
               detail=f"{n} strings")
@@ -939,7 +939,7 @@ def _escaper_attribute(ctx):
             for data in (s, s.encode()):
                 if _run(a, data) != s.encode():
                     bad.append(data)
-    except InterpError as e:
+    except (InterpError, ModelRaised) as e:      # an exception of the interpreted code that no scenario expected is confined to this section
         raise AnalysisError(f"C28: attributeEscapingDoneOutside not interpretable: {e}")
     ctx.check(not bad, "escaper/attribute-roundtrip", Q + "attributeEscapingDoneOutside", f"the pass-through escaper changes {bad[:1]} (the outer writer would then escape a different text)")
 
@@ -970,7 +970,7 @@ def _escaper_cdata(ctx):
             got = _parse_cdata(b"<![CDATA[" + out + b"]]>") if isinstance(out, bytes) else None
             if got != s.encode():
                 bad.append((s, out))
-    except InterpError as e:
+    except (InterpError, ModelRaised) as e:      # an exception of the interpreted code that no scenario expected is confined to this section
         raise AnalysisError(f"C28: escapedCDATA not interpretable: {e}")
     ctx.check(not bad, "escaper/cdata-sections", q, f"CDATA({bad[0][0]!r}) is written as {bad[0][1]!r}, which does not re-parse as CDATA sections with that content ({len(bad)} of {n})" if bad else "",
               detail=f"{n} strings")
@@ -1072,7 +1072,7 @@ def _escaper_comment(ctx):
                 early.append((s, doc))
             if b"--" in out or out.endswith(b"-"):
                 xml.append((s, doc))
-    except InterpError as e:
+    except (InterpError, ModelRaised) as e:      # an exception of the interpreted code that no scenario expected is confined to this section
         raise AnalysisError(f"C28: escapedComment not interpretable: {e}")
     ctx.extra["comment_strings_evaluated"] = n
     ex = ", ".join(f"Comment({s!r}) -> {d.decode()}" for s, d in early[:4])
